@@ -184,6 +184,15 @@ def plain(v):
     return v
 
 
+# parameters after the receiver: (name, is a lambda) - from the `:signature:` lines of the docstrings
+KEYWORD_PARAMS = {
+    'select': [('selector', True)], 'where': [('predicate', True)], 'selectMany': [('selector', True)],
+    'orderBy': [('selector', True)], 'orderByDescending': [('selector', True)], 'takeWhile': [('predicate', True)],
+    'skipWhile': [('predicate', True)], 'indexWhere': [('predicate', True)],
+    'toDict': [('keySelector', True), ('valueSelector', True)], 'aggregate': [('selector', True), ('seed', False)],
+    'sum': [('initial', False)], 'first': [('default', False)], 'take': [('count', False)], 'skip': [('count', False)],
+    'any': [('predicate', True)], 'all': [('predicate', True)],
+}
 METHODS = {'unpack', 'select', 'where', 'selectMany', 'orderBy', 'orderByDescending', 'takeWhile', 'skipWhile',
            'indexWhere', 'toDict', 'aggregate', 'sum', 'first', 'toList', 'take', 'skip', 'get', 'len', 'any', 'all'}
 FUNCTIONS = {'let', 'with', 'def', 'list', 'dict', 'len', 'any', 'all'}
@@ -268,12 +277,40 @@ class Interp:
             return self.call(e[1], e[2], e[3], c)
         if t == 'method':
             recv = self.ev(e[1], c)
+            args = e[3]
             if e[4]:
-                raise OOD('keyword arguments of a method')
+                if fn_key(e[2]) not in METHODS:
+                    raise NoMethodRegisteredException(e[2])
+                args = self.by_keyword(fn_key(e[2]), e[3], e[4])
             if fn_key(e[2]) not in METHODS:
                 raise NoMethodRegisteredException(e[2])
-            return self.method(fn_key(e[2]), recv, e[3], c, NoMatchingMethodException)
+            return self.method(fn_key(e[2]), recv, args, c, NoMatchingMethodException)
         raise OOD('unknown node %r' % (t,))
+
+    def by_keyword(self, f, args, kw):
+        """"`name => value` passes the argument to the parameter of that name": the positional argument list that
+        says the same (signatures as the docstrings give them: `collection.toDict(keySelector, valueSelector => null)`,
+        `collection.aggregate(selector, seed => NoValue)` ..).  A lambda stays a lambda however it is passed."""
+        params = KEYWORD_PARAMS.get(f)
+        if params is None:
+            raise OOD('keyword arguments of ' + f)
+        names = []
+        for k, _ in kw:
+            if k[0] != 'kw':
+                raise OOD('a mapping rule as an argument')
+            names.append(k[1])
+        if len(set(names)) != len(names):
+            raise OOD('repeated keyword')
+        rest = params[len(args):]
+        if len(args) > len(params) or any(n not in [p for p, _ in rest] for n in names):
+            raise NoMatchingMethodException(f)             # no parameter of that name (left)
+        given = [p for p, _ in rest if p in names]
+        if [p for p, _ in rest[:len(given)]] != given:
+            raise OOD('a parameter left out in between')
+        if given != names and not all(lazy for p, lazy in rest if p in names):
+            raise OOD('eager keyword arguments written in another order than the parameters')
+        values = dict((k[1], v) for k, v in kw)
+        return list(args) + [values[p] for p in given]
 
     def apply(self, body, defining, args, kwargs=None):
         """a lambda: `$1..$n` (and `$name`) are published into a child of the context the lambda
